@@ -94,18 +94,22 @@ func (t *tversion) handle(cs *connState) message {
 	// so who cares.
 	cs.baseVersion = baseVersion
 
-	// Initial a pool with msize-shaped buffers.
-	cs.readBufPool = sync.Pool{
-		New: func() interface{} {
-			// These buffers are used for decoding without a payload.
-			// We need to return a pointer to avoid unnecessary allocations
-			// (see https://staticcheck.io/docs/checks#SA6002).
-			b := make([]byte, msize)
-			return &b
+	// Initial a pool with msize-shaped buffers, and a buffer of zeros.
+	//
+	// They are published together: requests already being served (and
+	// replies still being cleaned up) keep the set they started with.
+	cs.readBufs.Store(&readBuffers{
+		pool: sync.Pool{
+			New: func() interface{} {
+				// These buffers are used for decoding without a payload.
+				// We need to return a pointer to avoid unnecessary allocations
+				// (see https://staticcheck.io/docs/checks#SA6002).
+				b := make([]byte, msize)
+				return &b
+			},
 		},
-	}
-	// Buffer of zeros.
-	cs.pristineZeros = make([]byte, msize)
+		pristineZeros: make([]byte, msize),
+	})
 
 	return &rversion{
 		MSize:   msize,
@@ -731,7 +735,8 @@ func (t *tread) handle(cs *connState) message {
 	}
 
 	var n int
-	data := cs.readBufPool.Get().(*[]byte)
+	bufs := cs.readBufs.Load()
+	data := bufs.pool.Get().(*[]byte)
 	// Retain a reference to the full length of the buffer.
 	dataBuf := (*data)
 
@@ -792,7 +797,7 @@ func (t *tread) handle(cs *connState) message {
 		rread: rread{
 			Data: dataBuf[:n],
 		},
-		cs:         cs,
+		bufs:       bufs,
 		fullBuffer: dataBuf,
 	}
 }
